@@ -4,6 +4,8 @@
 import PyModeS.Proofs.Bits
 import PyModeS.Model.Commb
 import PyModeS.Model.Misc
+import PyModeS.Proofs.Commb.AdsbTotal
+import PyModeS.Proofs.Commb.CommbTotal
 namespace PyModeS.C14
 
 /-- a guard of the form "TC must be in the documented set, else RuntimeError" never lets another TC through -/
@@ -13,5 +15,430 @@ theorem nuc_p_guard (bits : Bits) (tc : Nat) (h : tcB bits = some tc) (hout : tc
 
 theorem nuc_p_no_df (bits : Bits) (h : tcB bits = none) : nucP bits = .rte := by
   unfold nucP; simp [h]
+
+end PyModeS.C14
+
+/-! ## Totality, type guards and routing on well-formed frames (appended)
+
+  All statements are for 112-bit frames (`bits.length = 112`, i.e. 28 hex digits, any bit content);
+  the surveillance / all-call decoders are also covered for 56-bit frames.  A 56-bit frame passed to
+  a long-frame decoder is a recorded open finding and is deliberately not claimed here.
+  `Res` has three outcomes: `.val v` (a value of the documented shape — the Lean type), `.rte`
+  (RuntimeError) and `.exc` (any other exception type). -/
+namespace PyModeS.C14
+open PyModeS.Tot
+
+/-- "the frame is DF17/18 (so `common.typecode` is not `None`) and its type code satisfies `P`" -/
+abbrev HasTC (bits : Bits) (P : Nat → Prop) : Prop := ∃ tc, tcB bits = some tc ∧ P tc
+
+/-- position-message type codes: 5–18 and 20–22 -/
+abbrev PosTC (tc : Nat) : Prop := 5 ≤ tc ∧ tc ≤ 18 ∨ 20 ≤ tc ∧ tc ≤ 22
+
+/-- the regenerated tables the text decoders index: 64 character codes each, 24 capability labels -/
+theorem text_tables_total : Tables.callsignChars.length = 64 ∧ Tables.cs20Chars.length = 64 ∧
+    Tables.cap17All.length = 24 := by decide
+
+/-- every movement code a 7-bit field can hold decodes without an exception (regenerated tables) -/
+theorem movSpeed_total : ∀ mov, mov < 128 → movSpeed mov ≠ .exc :=
+  fun m hm => Res.ne_exc_of_isVal (movSpeed_isVal m hm)
+
+/-- every documented type code has an entry in the regenerated NUCp / NIC look-up tables, and the
+    NIC-supplement sub-tables of version 1 have one for both values of NICs -/
+theorem tc_lookup_total : ∀ tc, tc < 32 → PosTC tc →
+    lookupR Tables.tcNUCp tc ≠ .exc ∧ lookupR Tables.tcNICv1 tc ≠ .exc ∧ lookupR Tables.tcNICv2 tc ≠ .exc := by
+  intro tc hlt hd
+  have := tc_tables_total' tc hlt (by unfold PosTC at hd; omega)
+  refine ⟨Res.ne_exc_of_isVal this.1, ?_, Res.ne_exc_of_isVal this.2.2⟩
+  have h0 := this.2.1 0 (by omega)
+  intro he; rw [he] at h0; simp at h0
+
+/-! ### 5. no exception other than RuntimeError -/
+
+/-- ADS-B decoders (bds05/06/08/09/61/62 and adsb.py) -/
+theorem no_exc_adsb (bits : Bits) (h : bits.length = 112) :
+    adsbAltitude bits ≠ .exc ∧ altitude05 bits ≠ .exc ∧ surfaceVelocity bits ≠ .exc ∧
+    category bits ≠ .exc ∧ callsign bits ≠ .exc ∧ airborneVelocity bits ≠ .exc ∧
+    altitudeDiff bits ≠ .exc ∧ isEmergency bits ≠ .exc ∧ emergencyState bits ≠ .exc ∧
+    emergencySquawk bits ≠ .exc ∧ selectedAltitude bits ≠ .exc ∧ targetAltitude bits ≠ .exc ∧
+    verticalMode bits ≠ .exc ∧ horizontalMode bits ≠ .exc ∧ selectedHeading bits ≠ .exc ∧
+    targetAngle bits ≠ .exc ∧ baroPressureSetting bits ≠ .exc ∧ autopilot bits ≠ .exc ∧
+    vnavMode bits ≠ .exc ∧ altitudeHoldMode bits ≠ .exc ∧ approachMode bits ≠ .exc ∧
+    lnavMode bits ≠ .exc ∧ tcasOperational bits ≠ .exc ∧ tcasRa bits ≠ .exc ∧
+    emergencyStatus bits ≠ .exc ∧ oeFlag bits ≠ .exc ∧ version bits ≠ .exc ∧
+    nucP bits ≠ .exc ∧ nucV bits ≠ .exc ∧
+    (∀ nics, nics ≤ 1 → nicV1 bits nics ≠ .exc) ∧
+    (∀ nica nicbc, nicV2 bits nica nicbc ≠ .exc) ∧
+    nicS bits ≠ .exc ∧ nicAC bits ≠ .exc ∧ nicB bits ≠ .exc ∧ nacP bits ≠ .exc ∧ nacV bits ≠ .exc ∧
+    (∀ v, sil bits v ≠ .exc) ∧
+    (∀ latRef lonRef, positionWithRef bits latRef lonRef ≠ .exc) := by
+  refine ⟨(adsbAltitude_shape bits h).ne_exc, (altitude05_shape bits h).ne_exc,
+    (surfaceVelocity_shape bits h).ne_exc, (category_shape bits h).ne_exc,
+    (callsign_shape text_tables_total.1 bits h).ne_exc, (airborneVelocity_shape bits h).ne_exc,
+    (altitudeDiff_shape bits h).ne_exc, (isEmergency_shape bits h).ne_exc,
+    (emergencyState_shape bits h).ne_exc, (emergencySquawk_shape bits h).ne_exc,
+    (selectedAltitude_shape bits h).ne_exc, (targetAltitude_shape bits h).ne_exc,
+    (verticalMode_shape bits h).ne_exc, (horizontalMode_shape bits h).ne_exc,
+    (selectedHeading_shape bits h).ne_exc, (targetAngle_shape bits h).ne_exc,
+    (baroPressureSetting_shape bits h).ne_exc, (modeFlag_shape 47 (by omega) bits h).ne_exc,
+    (modeFlag_shape 48 (by omega) bits h).ne_exc, (modeFlag_shape 49 (by omega) bits h).ne_exc,
+    (modeFlag_shape 51 (by omega) bits h).ne_exc, (modeFlag_shape 53 (by omega) bits h).ne_exc,
+    (tcasOperational_shape bits h).ne_exc, (tcasRa_shape bits h).ne_exc,
+    (emergencyStatus_shape bits h).ne_exc, Res.ne_exc_of_isVal (oeFlag_isVal bits h),
+    (version_shape bits h).ne_exc, (nucP_shape bits).ne_exc, (nucV_shape bits h).ne_exc,
+    fun nics hn => (nicV1_shape bits nics hn).ne_exc,
+    fun nica nicbc => (nicV2_shape bits nica nicbc).ne_exc,
+    (nicS_shape bits h).ne_exc, (nicAC_shape bits h).ne_exc, (nicB_shape bits h).ne_exc,
+    (nacP_shape bits h).ne_exc, (nacV_shape bits h).ne_exc,
+    fun v => (sil_shape bits h v).ne_exc,
+    fun la lo => (positionWithRef_shape bits h la lo).ne_exc⟩
+
+/-- adsb.position on two 112-bit frames, any times and reference -/
+theorem no_exc_position (b0 b1 : Bits) (h0 : b0.length = 112) (h1 : b1.length = 112) (t0 t1 : Rat)
+    (ref : Option (Rat × Rat)) : position b0 b1 t0 t1 ref ≠ .exc :=
+  position_ne_exc b0 b1 h0 h1 t0 t1 ref
+
+/-- every Comm-B function of the model returns a value on any 112-bit frame (so neither RuntimeError
+    nor any other exception), for any `iasOfMach` oracle and `mrar` flag -/
+theorem commb_total (bits : Bits) (h : bits.length = 112) :
+    (ovc10 bits).isVal ∧ (is10 bits).isVal ∧ (cap17 bits).isVal ∧ (is17 bits).isVal ∧ (cs20 bits).isVal ∧
+    (is20 bits).isVal ∧ (is30 bits).isVal ∧ (is40 bits).isVal ∧ (selalt40mcp bits).isVal ∧
+    (selalt40fms bits).isVal ∧ (p40baro bits).isVal ∧ (is44 bits).isVal ∧ (wind44 bits).isVal ∧
+    (temp44 bits).isVal ∧ (p44 bits).isVal ∧ (hum44 bits).isVal ∧ (turb44 bits).isVal ∧ (is45 bits).isVal ∧
+    (turb45 bits).isVal ∧ (ws45 bits).isVal ∧ (mb45 bits).isVal ∧ (ic45 bits).isVal ∧ (wv45 bits).isVal ∧
+    (temp45 bits).isVal ∧ (p45 bits).isVal ∧ (rh45 bits).isVal ∧ (is50 bits).isVal ∧ (roll50 bits).isVal ∧
+    (trk50 bits).isVal ∧ (gs50 bits).isVal ∧ (rtrk50 bits).isVal ∧ (tas50 bits).isVal ∧ (is53 bits).isVal ∧
+    (hdg53 bits).isVal ∧ (ias53 bits).isVal ∧ (mach53 bits).isVal ∧ (tas53 bits).isVal ∧ (vr53 bits).isVal ∧
+    (is60Core bits).isVal ∧ (∀ iasOfMach, (is60 iasOfMach bits).isVal) ∧
+    (hdg60 bits).isVal ∧ (ias60 bits).isVal ∧ (mach60 bits).isVal ∧ (vr60baro bits).isVal ∧
+    (vr60ins bits).isVal ∧ (∀ iasOfMach mrar, (infer iasOfMach bits mrar).isVal) :=
+  ⟨ovc10_isVal bits h, is10_isVal bits h, cap17_isVal bits h, is17_isVal bits h, cs20_isVal bits h,
+   is20_isVal bits h, is30_isVal bits h, is40_isVal bits h, selalt40mcp_isVal bits h,
+   selalt40fms_isVal bits h, p40baro_isVal bits h, is44_isVal bits h, wind44_isVal bits h,
+   temp44_isVal bits h, p44_isVal bits h, hum44_isVal bits h, turb44_isVal bits h, is45_isVal bits h,
+   turb45_isVal bits h, ws45_isVal bits h, mb45_isVal bits h, ic45_isVal bits h, wv45_isVal bits h,
+   temp45_isVal bits h, p45_isVal bits h, rh45_isVal bits h, is50_isVal bits h, roll50_isVal bits h,
+   trk50_isVal bits h, gs50_isVal bits h, rtrk50_isVal bits h, tas50_isVal bits h, is53_isVal bits h,
+   hdg53_isVal bits h, ias53_isVal bits h, mach53_isVal bits h, tas53_isVal bits h, vr53_isVal bits h,
+   is60Core_isVal bits h, fun f => is60_isVal f bits h,
+   hdg60_isVal bits h, ias60_isVal bits h, mach60_isVal bits h, vr60baro_isVal bits h,
+   vr60ins_isVal bits h, fun f m => infer_isVal f bits m h⟩
+
+/-- a value is in particular not an exception -/
+theorem no_exc_of_isVal {α : Type} {x : Res α} (h : x.isVal = true) : x ≠ .exc := Res.ne_exc_of_isVal h
+
+/-- surv.py and allcall.py, on 56-bit and on 112-bit frames -/
+theorem no_exc_surv_allcall (bits : Bits) (h : bits.length = 56 ∨ bits.length = 112) :
+    survFs bits ≠ .exc ∧ survDr bits ≠ .exc ∧ survUm bits ≠ .exc ∧ survAltitude bits ≠ .exc ∧
+    survIdentity bits ≠ .exc ∧ interrogator bits ≠ .exc ∧ capability bits ≠ .exc := by
+  have h32 : 32 ≤ bits.length := by omega
+  exact ⟨(survFs_shape bits h32).ne_exc, (survDr_shape bits h32).ne_exc, (survUm_shape bits h32).ne_exc,
+    (survAltitude_shape bits h32).ne_exc, (survIdentity_shape bits h32).ne_exc,
+    (interrogator_shape bits).ne_exc, (capability_shape bits h32).ne_exc⟩
+
+/-- **C14 (totality).** On any 112-bit frame no decoder of the model lets an exception other than
+    RuntimeError escape. -/
+theorem no_exc_112 (bits : Bits) (h : bits.length = 112) :
+    (adsbAltitude bits ≠ .exc ∧ altitude05 bits ≠ .exc ∧ surfaceVelocity bits ≠ .exc ∧
+     category bits ≠ .exc ∧ callsign bits ≠ .exc ∧ airborneVelocity bits ≠ .exc ∧
+     altitudeDiff bits ≠ .exc ∧ isEmergency bits ≠ .exc ∧ emergencyState bits ≠ .exc ∧
+     emergencySquawk bits ≠ .exc ∧ selectedAltitude bits ≠ .exc ∧ targetAltitude bits ≠ .exc ∧
+     verticalMode bits ≠ .exc ∧ horizontalMode bits ≠ .exc ∧ selectedHeading bits ≠ .exc ∧
+     targetAngle bits ≠ .exc ∧ baroPressureSetting bits ≠ .exc ∧ autopilot bits ≠ .exc ∧
+     vnavMode bits ≠ .exc ∧ altitudeHoldMode bits ≠ .exc ∧ approachMode bits ≠ .exc ∧
+     lnavMode bits ≠ .exc ∧ tcasOperational bits ≠ .exc ∧ tcasRa bits ≠ .exc ∧
+     emergencyStatus bits ≠ .exc ∧ oeFlag bits ≠ .exc ∧ version bits ≠ .exc ∧
+     nucP bits ≠ .exc ∧ nucV bits ≠ .exc ∧
+     (∀ nics, nics ≤ 1 → nicV1 bits nics ≠ .exc) ∧
+     (∀ nica nicbc, nicV2 bits nica nicbc ≠ .exc) ∧
+     nicS bits ≠ .exc ∧ nicAC bits ≠ .exc ∧ nicB bits ≠ .exc ∧ nacP bits ≠ .exc ∧ nacV bits ≠ .exc ∧
+     (∀ v, sil bits v ≠ .exc) ∧
+     (∀ latRef lonRef, positionWithRef bits latRef lonRef ≠ .exc)) ∧
+    (∀ b1 : Bits, b1.length = 112 → ∀ t0 t1 ref,
+      position bits b1 t0 t1 ref ≠ .exc ∧ position b1 bits t0 t1 ref ≠ .exc) ∧
+    (ovc10 bits ≠ .exc ∧ is10 bits ≠ .exc ∧ cap17 bits ≠ .exc ∧ is17 bits ≠ .exc ∧ cs20 bits ≠ .exc ∧
+     is20 bits ≠ .exc ∧ is30 bits ≠ .exc ∧ is40 bits ≠ .exc ∧ selalt40mcp bits ≠ .exc ∧
+     selalt40fms bits ≠ .exc ∧ p40baro bits ≠ .exc ∧ is44 bits ≠ .exc ∧ wind44 bits ≠ .exc ∧
+     temp44 bits ≠ .exc ∧ p44 bits ≠ .exc ∧ hum44 bits ≠ .exc ∧ turb44 bits ≠ .exc ∧ is45 bits ≠ .exc ∧
+     turb45 bits ≠ .exc ∧ ws45 bits ≠ .exc ∧ mb45 bits ≠ .exc ∧ ic45 bits ≠ .exc ∧ wv45 bits ≠ .exc ∧
+     temp45 bits ≠ .exc ∧ p45 bits ≠ .exc ∧ rh45 bits ≠ .exc ∧ is50 bits ≠ .exc ∧ roll50 bits ≠ .exc ∧
+     trk50 bits ≠ .exc ∧ gs50 bits ≠ .exc ∧ rtrk50 bits ≠ .exc ∧ tas50 bits ≠ .exc ∧ is53 bits ≠ .exc ∧
+     hdg53 bits ≠ .exc ∧ ias53 bits ≠ .exc ∧ mach53 bits ≠ .exc ∧ tas53 bits ≠ .exc ∧ vr53 bits ≠ .exc ∧
+     is60Core bits ≠ .exc ∧ (∀ iasOfMach, is60 iasOfMach bits ≠ .exc) ∧
+     hdg60 bits ≠ .exc ∧ ias60 bits ≠ .exc ∧ mach60 bits ≠ .exc ∧ vr60baro bits ≠ .exc ∧
+     vr60ins bits ≠ .exc ∧ (∀ iasOfMach mrar, infer iasOfMach bits mrar ≠ .exc)) ∧
+    (survFs bits ≠ .exc ∧ survDr bits ≠ .exc ∧ survUm bits ≠ .exc ∧ survAltitude bits ≠ .exc ∧
+     survIdentity bits ≠ .exc ∧ interrogator bits ≠ .exc ∧ capability bits ≠ .exc) := by
+  have c := commb_total bits h
+  refine ⟨no_exc_adsb bits h, fun b1 h1 t0 t1 ref =>
+    ⟨no_exc_position bits b1 h h1 t0 t1 ref, no_exc_position b1 bits h1 h t0 t1 ref⟩, ?_,
+    no_exc_surv_allcall bits (Or.inr h)⟩
+  obtain ⟨c1, c2, c3, c4, c5, c6, c7, c8, c9, c10, c11, c12, c13, c14, c15, c16, c17, c18, c19, c20, c21,
+    c22, c23, c24, c25, c26, c27, c28, c29, c30, c31, c32, c33, c34, c35, c36, c37, c38, c39, c40, c41,
+    c42, c43, c44, c45, c46⟩ := c
+  exact ⟨no_exc_of_isVal c1, no_exc_of_isVal c2, no_exc_of_isVal c3, no_exc_of_isVal c4, no_exc_of_isVal c5,
+    no_exc_of_isVal c6, no_exc_of_isVal c7, no_exc_of_isVal c8, no_exc_of_isVal c9, no_exc_of_isVal c10,
+    no_exc_of_isVal c11, no_exc_of_isVal c12, no_exc_of_isVal c13, no_exc_of_isVal c14, no_exc_of_isVal c15,
+    no_exc_of_isVal c16, no_exc_of_isVal c17, no_exc_of_isVal c18, no_exc_of_isVal c19, no_exc_of_isVal c20,
+    no_exc_of_isVal c21, no_exc_of_isVal c22, no_exc_of_isVal c23, no_exc_of_isVal c24, no_exc_of_isVal c25,
+    no_exc_of_isVal c26, no_exc_of_isVal c27, no_exc_of_isVal c28, no_exc_of_isVal c29, no_exc_of_isVal c30,
+    no_exc_of_isVal c31, no_exc_of_isVal c32, no_exc_of_isVal c33, no_exc_of_isVal c34, no_exc_of_isVal c35,
+    no_exc_of_isVal c36, no_exc_of_isVal c37, no_exc_of_isVal c38, no_exc_of_isVal c39,
+    fun f => no_exc_of_isVal (c40 f), no_exc_of_isVal c41, no_exc_of_isVal c42, no_exc_of_isVal c43,
+    no_exc_of_isVal c44, no_exc_of_isVal c45, fun f m => no_exc_of_isVal (c46 f m)⟩
+
+/-- a concrete non-trivial 112-bit frame (DF17, TC 19 airborne velocity, "8D485020994409940838175B284F") -/
+def sampleFrame : Bits := natToBits 112 0x8D485020994409940838175B284F
+
+example : sampleFrame.length = 112 := by simp [sampleFrame]
+example : tcB sampleFrame = some 19 := by decide +kernel
+
+/-! ### 6. type guards: RuntimeError exactly outside the documented DF / TC / subtype -/
+
+/-- **C14 (type guards), ADS-B.** On any 112-bit frame each TC-guarded decoder raises RuntimeError
+    exactly when (DF, TC, subtype) is outside its documented set; by `no_exc_112` it returns a value
+    in every other case (see `val_iff_of`).  For the TC 29 decoders the guard is stated *as coded*
+    (only one value of the 2-bit subtype field is excluded — a recorded open finding):
+    `st = bin2int (slice 37 39 bits)` is ME bits 6–7; for TC 28, `bin2int (slice 37 40 bits)` is the
+    3-bit subtype, ME bits 6–8. -/
+theorem guard_iff (bits : Bits) (h : bits.length = 112) :
+    (adsbAltitude bits = .rte ↔ ¬ HasTC bits PosTC) ∧
+    (altitude05 bits = .rte ↔ ¬ HasTC bits (fun tc => 9 ≤ tc ∧ tc ≤ 18 ∨ 20 ≤ tc ∧ tc ≤ 22)) ∧
+    (surfaceVelocity bits = .rte ↔ ¬ HasTC bits (fun tc => 5 ≤ tc ∧ tc ≤ 8)) ∧
+    (airborneVelocity bits = .rte ↔ tcB bits ≠ some 19) ∧
+    (altitudeDiff bits = .rte ↔ tcB bits ≠ some 19) ∧
+    (nucV bits = .rte ↔ tcB bits ≠ some 19) ∧
+    (nacV bits = .rte ↔ tcB bits ≠ some 19) ∧
+    (category bits = .rte ↔ ¬ HasTC bits (fun tc => 1 ≤ tc ∧ tc ≤ 4)) ∧
+    (callsign bits = .rte ↔ ¬ HasTC bits (fun tc => 1 ≤ tc ∧ tc ≤ 4)) ∧
+    (version bits = .rte ↔ tcB bits ≠ some 31) ∧
+    (nicS bits = .rte ↔ tcB bits ≠ some 31) ∧
+    (nicAC bits = .rte ↔ tcB bits ≠ some 31) ∧
+    (nicB bits = .rte ↔ ¬ HasTC bits (fun tc => 9 ≤ tc ∧ tc ≤ 18)) ∧
+    (nucP bits = .rte ↔ ¬ HasTC bits PosTC) ∧
+    (∀ nics, nics ≤ 1 → (nicV1 bits nics = .rte ↔ ¬ HasTC bits PosTC)) ∧
+    (∀ nica nicbc, nicV2 bits nica nicbc = .rte ↔ ¬ HasTC bits PosTC) ∧
+    (nacP bits = .rte ↔ ¬ HasTC bits (fun tc => tc = 29 ∨ tc = 31)) ∧
+    (∀ v, sil bits v = .rte ↔ ¬ HasTC bits (fun tc => tc = 29 ∨ tc = 31)) ∧
+    (emergencySquawk bits = .rte ↔ tcB bits ≠ some 28) ∧
+    (isEmergency bits = .rte ↔ ¬ (tcB bits = some 28 ∧ bin2int (slice 37 40 bits) ≠ 2)) ∧
+    (emergencyState bits = .rte ↔ ¬ (tcB bits = some 28 ∧ bin2int (slice 37 40 bits) ≠ 2)) ∧
+    -- TC 29, "version 1"-style decoders, as coded
+    (selectedAltitude bits = .rte ↔ tcB bits ≠ some 29 ∨ bin2int (slice 37 39 bits) = 0) ∧
+    (baroPressureSetting bits = .rte ↔ tcB bits ≠ some 29 ∨ bin2int (slice 37 39 bits) = 0) ∧
+    (selectedHeading bits = .rte ↔ tcB bits ≠ some 29 ∨ bin2int (slice 37 39 bits) = 0) ∧
+    (autopilot bits = .rte ↔ tcB bits ≠ some 29 ∨ bin2int (slice 37 39 bits) = 0) ∧
+    (vnavMode bits = .rte ↔ tcB bits ≠ some 29 ∨ bin2int (slice 37 39 bits) = 0) ∧
+    (altitudeHoldMode bits = .rte ↔ tcB bits ≠ some 29 ∨ bin2int (slice 37 39 bits) = 0) ∧
+    (approachMode bits = .rte ↔ tcB bits ≠ some 29 ∨ bin2int (slice 37 39 bits) = 0) ∧
+    (lnavMode bits = .rte ↔ tcB bits ≠ some 29 ∨ bin2int (slice 37 39 bits) = 0) ∧
+    -- TC 29, "version 0"-style decoders, as coded
+    (targetAltitude bits = .rte ↔ tcB bits ≠ some 29 ∨ bin2int (slice 37 39 bits) = 1) ∧
+    (verticalMode bits = .rte ↔ tcB bits ≠ some 29 ∨ bin2int (slice 37 39 bits) = 1) ∧
+    (horizontalMode bits = .rte ↔ tcB bits ≠ some 29 ∨ bin2int (slice 37 39 bits) = 1) ∧
+    (targetAngle bits = .rte ↔ tcB bits ≠ some 29 ∨ bin2int (slice 37 39 bits) = 1) ∧
+    (tcasRa bits = .rte ↔ tcB bits ≠ some 29 ∨ bin2int (slice 37 39 bits) = 1) ∧
+    (emergencyStatus bits = .rte ↔ tcB bits ≠ some 29 ∨ bin2int (slice 37 39 bits) = 1) ∧
+    (tcasOperational bits = .rte ↔ tcB bits ≠ some 29) ∧
+    (∀ latRef lonRef, positionWithRef bits latRef lonRef = .rte ↔ ¬ HasTC bits PosTC) := by
+  have v1 : ∀ {α : Type} {x : Res α}, Guarded (DocV1 bits) x →
+      (x = .rte ↔ tcB bits ≠ some 29 ∨ bin2int (slice 37 39 bits) = 0) := by
+    intro α x g
+    rw [g.rte_iff]; unfold DocV1
+    by_cases a : tcB bits = some 29 <;> by_cases b : bin2int (slice 37 39 bits) = 0 <;> simp [a, b]
+  have v0 : ∀ {α : Type} {x : Res α}, Guarded (DocV0 bits) x →
+      (x = .rte ↔ tcB bits ≠ some 29 ∨ bin2int (slice 37 39 bits) = 1) := by
+    intro α x g
+    rw [g.rte_iff]; unfold DocV0
+    by_cases a : tcB bits = some 29 <;> by_cases b : bin2int (slice 37 39 bits) = 1 <;> simp [a, b]
+  exact ⟨(adsbAltitude_shape bits h).rte_iff, (altitude05_shape bits h).rte_iff,
+    (surfaceVelocity_shape bits h).rte_iff, (airborneVelocity_shape bits h).rte_iff,
+    (altitudeDiff_shape bits h).rte_iff, (nucV_shape bits h).rte_iff, (nacV_shape bits h).rte_iff,
+    (category_shape bits h).rte_iff, (callsign_shape text_tables_total.1 bits h).rte_iff,
+    (version_shape bits h).rte_iff, (nicS_shape bits h).rte_iff, (nicAC_shape bits h).rte_iff,
+    (nicB_shape bits h).rte_iff, (nucP_shape bits).rte_iff,
+    fun nics hn => (nicV1_shape bits nics hn).rte_iff,
+    fun nica nicbc => (nicV2_shape bits nica nicbc).rte_iff,
+    (nacP_shape bits h).rte_iff, fun v => (sil_shape bits h v).rte_iff,
+    (emergencySquawk_shape bits h).rte_iff, (isEmergency_shape bits h).rte_iff,
+    (emergencyState_shape bits h).rte_iff,
+    v1 (selectedAltitude_shape bits h), v1 (baroPressureSetting_shape bits h),
+    v1 (selectedHeading_shape bits h), v1 (modeFlag_shape 47 (by omega) bits h),
+    v1 (modeFlag_shape 48 (by omega) bits h), v1 (modeFlag_shape 49 (by omega) bits h),
+    v1 (modeFlag_shape 51 (by omega) bits h), v1 (modeFlag_shape 53 (by omega) bits h),
+    v0 (targetAltitude_shape bits h), v0 (verticalMode_shape bits h), v0 (horizontalMode_shape bits h),
+    v0 (targetAngle_shape bits h), v0 (tcasRa_shape bits h), v0 (emergencyStatus_shape bits h),
+    (tcasOperational_shape bits h).rte_iff,
+    fun la lo => (positionWithRef_shape bits h la lo).rte_iff⟩
+
+/-- **C14 (type guards), surv.py / allcall.py**, for 56- and 112-bit frames: DF 4/5 (altitude: DF 4,
+    identity: DF 5), DF 11 -/
+theorem guard_iff_surv_allcall (bits : Bits) (h : bits.length = 56 ∨ bits.length = 112) :
+    (survFs bits = .rte ↔ ¬ (dfB bits = 4 ∨ dfB bits = 5)) ∧
+    (survDr bits = .rte ↔ ¬ (dfB bits = 4 ∨ dfB bits = 5)) ∧
+    (survUm bits = .rte ↔ ¬ (dfB bits = 4 ∨ dfB bits = 5)) ∧
+    (survAltitude bits = .rte ↔ dfB bits ≠ 4) ∧
+    (survIdentity bits = .rte ↔ dfB bits ≠ 5) ∧
+    (interrogator bits = .rte ↔ dfB bits ≠ 11) ∧
+    (capability bits = .rte ↔ dfB bits ≠ 11) := by
+  have h32 : 32 ≤ bits.length := by omega
+  exact ⟨(survFs_shape bits h32).rte_iff, (survDr_shape bits h32).rte_iff, (survUm_shape bits h32).rte_iff,
+    (survAltitude_shape bits h32).rte_iff, (survIdentity_shape bits h32).rte_iff,
+    (interrogator_shape bits).rte_iff, (capability_shape bits h32).rte_iff⟩
+
+/-- non-vacuity on short frames: a DF5 identity reply ("2A00516D492B80") decodes to squawk 0356, and
+    the DF4-only altitude decoder refuses it -/
+example : survIdentity (natToBits 56 0x2A00516D492B80) = .val [0, 3, 5, 6] ∧
+    survAltitude (natToBits 56 0x2A00516D492B80) = .rte := by decide +kernel
+
+/-- "value iff documented": together with `no_exc_112`, each `… = .rte ↔ ¬doc` of `guard_iff` is
+    equivalent to `(∃ v, … = .val v) ↔ doc` -/
+theorem val_iff_of {α : Type} {x : Res α} {P : Prop} (hne : x ≠ .exc) (hr : x = .rte ↔ ¬P) :
+    (∃ v, x = .val v) ↔ P := by
+  constructor
+  · rintro ⟨v, hv⟩
+    by_cases hp : P
+    · exact hp
+    · rw [hr.mpr hp] at hv; cases hv
+  · intro hp
+    cases hx : x with
+    | val v => exact ⟨v, rfl⟩
+    | rte => exact absurd hp (hr.mp hx)
+    | exc => exact absurd hx hne
+
+/-- e.g. airborne velocity returns a value exactly on TC 19 -/
+example (bits : Bits) (h : bits.length = 112) : (∃ v, airborneVelocity bits = .val v) ↔ tcB bits = some 19 := by
+  have := val_iff_of (no_exc_adsb bits h).2.2.2.2.2.1 (guard_iff bits h).2.2.2.1
+  simpa using this
+
+/-- the guards are not vacuous: the sample TC 19 frame decodes, a position decoder refuses it -/
+example : (∃ v, airborneVelocity sampleFrame = .val v) ∧ adsbAltitude sampleFrame = .rte := by
+  have hl : sampleFrame.length = 112 := by simp [sampleFrame]
+  have ht : tcB sampleFrame = some 19 := by decide +kernel
+  refine ⟨(val_iff_of (no_exc_adsb _ hl).2.2.2.2.2.1 (guard_iff _ hl).2.2.2.1).mpr (by simpa using ht), ?_⟩
+  apply (guard_iff _ hl).1.mpr
+  rintro ⟨tc, h1, h2⟩
+  rw [ht] at h1; cases h1
+  unfold PosTC at h2; omega
+
+/-! ### 7. routing by type code -/
+
+/-- **adsb.position routes exactly by the pair of type codes**: the surface decoder iff both are 5–8
+    (and a reference is supplied), the airborne decoder iff both are 9–18 or both are 20–22,
+    RuntimeError for every other pair (including a non-DF17/18 frame) — never another exception. -/
+theorem positionRoute_table (b0 b1 : Bits) (haveRef : Bool) :
+    (positionRoute b0 b1 haveRef = .val .surface ↔
+      ∃ tc0 tc1, tcB b0 = some tc0 ∧ tcB b1 = some tc1 ∧ (5 ≤ tc0 ∧ tc0 ≤ 8) ∧ (5 ≤ tc1 ∧ tc1 ≤ 8) ∧
+        haveRef = true) ∧
+    (positionRoute b0 b1 haveRef = .val .airborne ↔
+      ∃ tc0 tc1, tcB b0 = some tc0 ∧ tcB b1 = some tc1 ∧
+        ((9 ≤ tc0 ∧ tc0 ≤ 18) ∧ (9 ≤ tc1 ∧ tc1 ≤ 18) ∨ (20 ≤ tc0 ∧ tc0 ≤ 22) ∧ (20 ≤ tc1 ∧ tc1 ≤ 22))) ∧
+    positionRoute b0 b1 haveRef ≠ .exc := by
+  unfold positionRoute
+  cases h0 : tcB b0 with
+  | none => simp
+  | some tc0 =>
+    cases h1 : tcB b1 with
+    | none => simp
+    | some tc1 =>
+      simp only [Option.some.injEq, exists_and_left, exists_eq_left']
+      refine ⟨?_, ?_, ?_⟩
+      · split
+        · cases haveRef <;> simp <;> omega
+        · split
+          · simp; omega
+          · split
+            · simp; omega
+            · simp; omega
+      · split
+        · cases haveRef <;> simp <;> omega
+        · split
+          · simp; omega
+          · split
+            · simp; omega
+            · simp; omega
+      · repeat' split
+        all_goals simp
+
+/-- the decoder `position` actually calls, for each route -/
+theorem position_dispatch (b0 b1 : Bits) (t0 t1 : Rat) (ref : Option (Rat × Rat)) :
+    (positionRoute b0 b1 ref.isSome = .val .airborne →
+      position b0 b1 t0 t1 ref = airbornePosition b0 b1 t0 t1) ∧
+    (∀ la lo, ref = some (la, lo) → positionRoute b0 b1 true = .val .surface →
+      position b0 b1 t0 t1 ref = surfacePosition b0 b1 t0 t1 la lo) ∧
+    (positionRoute b0 b1 ref.isSome = .rte → position b0 b1 t0 t1 ref = .rte) := by
+  unfold position
+  refine ⟨?_, ?_, ?_⟩
+  · intro h; rw [h]; rfl
+  · intro la lo hr h; subst hr; simp only [Option.isSome_some]; rw [h]; rfl
+  · intro h; rw [h]; rfl
+
+/-- **adsb.position_with_ref routes exactly by type code**: surface iff TC 5–8, airborne iff TC 9–18 or
+    20–22, RuntimeError otherwise -/
+theorem positionWithRefRoute_table (b : Bits) :
+    (positionWithRefRoute b = .val .surface ↔ HasTC b (fun tc => 5 ≤ tc ∧ tc ≤ 8)) ∧
+    (positionWithRefRoute b = .val .airborne ↔
+      HasTC b (fun tc => 9 ≤ tc ∧ tc ≤ 18 ∨ 20 ≤ tc ∧ tc ≤ 22)) ∧
+    (positionWithRefRoute b = .rte ↔ ¬ HasTC b PosTC) ∧
+    positionWithRefRoute b ≠ .exc := by
+  unfold positionWithRefRoute HasTC PosTC
+  cases h0 : tcB b with
+  | none => simp
+  | some tc =>
+    simp only [Option.some.injEq, exists_eq_left']
+    refine ⟨?_, ?_, ?_, ?_⟩
+    all_goals
+      split
+      · simp; try omega
+      · split
+        · simp; try omega
+        · simp; try omega
+
+theorem positionWithRef_dispatch (b : Bits) (latRef lonRef : Rat) :
+    (positionWithRefRoute b = .val .surface →
+      positionWithRef b latRef lonRef = surfacePositionWithRef b latRef lonRef) ∧
+    (positionWithRefRoute b = .val .airborne →
+      positionWithRef b latRef lonRef = airbornePositionWithRef b latRef lonRef) ∧
+    (positionWithRefRoute b = .rte → positionWithRef b latRef lonRef = .rte) := by
+  unfold positionWithRef
+  refine ⟨?_, ?_, ?_⟩ <;> intro h <;> rw [h] <;> rfl
+
+/-- **adsb.velocity routes exactly by type code**: surface iff TC 5–8, airborne iff TC 19 -/
+theorem velocityRoute_table (b : Bits) :
+    (velocityRoute b = .val .surface ↔ HasTC b (fun tc => 5 ≤ tc ∧ tc ≤ 8)) ∧
+    (velocityRoute b = .val .airborne ↔ tcB b = some 19) ∧
+    (velocityRoute b = .rte ↔ ¬ HasTC b (fun tc => 5 ≤ tc ∧ tc ≤ 8 ∨ tc = 19)) ∧
+    velocityRoute b ≠ .exc := by
+  unfold velocityRoute HasTC
+  cases h0 : tcB b with
+  | none => simp
+  | some tc =>
+    simp only [Option.some.injEq, exists_eq_left']
+    refine ⟨?_, ?_, ?_, ?_⟩
+    all_goals
+      split
+      · simp; try omega
+      · split
+        · simp; try omega
+        · simp; try omega
+
+/-- **adsb.altitude routes exactly by type code**: the constant 0 for a surface position (TC 5–8),
+    the bds05 decoder for TC 9–18 and 20–22, RuntimeError otherwise -/
+theorem adsbAltitude_table (bits : Bits) :
+    (HasTC bits (fun tc => 5 ≤ tc ∧ tc ≤ 8) → adsbAltitude bits = .val (some 0)) ∧
+    (HasTC bits (fun tc => 9 ≤ tc ∧ tc ≤ 18 ∨ 20 ≤ tc ∧ tc ≤ 22) → adsbAltitude bits = altitude05 bits) ∧
+    (¬ HasTC bits PosTC → adsbAltitude bits = .rte) := by
+  unfold adsbAltitude HasTC PosTC
+  cases h0 : tcB bits with
+  | none => simp
+  | some tc =>
+    simp only [Option.some.injEq, exists_eq_left']
+    refine ⟨?_, ?_, ?_⟩
+    · intro h; rw [if_neg (by omega), if_pos (by omega)]
+    · intro h; rw [if_neg (by omega), if_neg (by omega)]
+    · intro h; rw [if_pos (by omega)]
+
+/-- non-vacuity of the routing tables on the sample TC 19 frame -/
+example : velocityRoute sampleFrame = .val .airborne ∧ positionWithRefRoute sampleFrame = .rte := by
+  decide +kernel
 
 end PyModeS.C14
